@@ -92,8 +92,11 @@ def gen_world(rng, prop, long_dim=False):
     layout["row_index"] = rng.weighted([("range", 4), ("permuted", 2), ("offset", 1)])
     layout["int_values"] = rng.chance(0.15)  # whole-number values in an integer typed column
     layout["blank_headers"] = rng.chance(0.5)
+    layout["axis_name"] = rng.choice([None, None, "name", "letter"])
+    # infinite entries (an unbounded capacity, a division by zero upstream) are values like any other
+    layout["inf"] = rng.randint(1, 10 ** 6) if (rng.chance(0.08) and not long_dim and not layout["int_values"] and medium != "excel_reader") else 0
     ints = [k for k, d in enumerate(dims) if isinstance(d["items"][0], int)]
-    if ints and not long_dim and rng.chance(0.08):
+    if ints and not long_dim and not layout["inf"] and rng.chance(0.08):
         # values that repeat the labels of one dimension (or the labels plus a fraction): a value column then holds the very numbers
         # that are this dimension's items
         layout["mimic"] = {"dim": rng.choice(ints), "frac": rng.chance(0.5)}
@@ -123,6 +126,11 @@ def make_values(world, shape):
         its = world["dims"][mim["dim"]]["items"]
         grid = np.indices(shape)[mim["dim"]].reshape(-1)
         vals = np.array([float(its[g]) + (0.125 if mim["frac"] else 0.0) for g in grid])
+    if world["layout"].get("inf") and size >= 1:
+        k1 = world["layout"]["inf"] % size
+        vals[k1] = np.inf
+        if size >= 2 and world["layout"]["inf"] % 3:
+            vals[(k1 + 1 + world["layout"]["inf"] // 7 % (size - 1)) % size] = -np.inf
     for n_, z in enumerate(world["zeros"]):
         # most of the listed entries are exact zeros; every third one is a tiny but non-zero number (a sparse export must keep it)
         vals[z % size] = 0.0 if (n_ % 3 or world["layout"].get("int_values")) else [1e-9, -3e-12, 2.5e-10][n_ % 9 // 3]
@@ -226,6 +234,10 @@ def to_dataframe(frame, index, layout=None, dims=None):
     plain = not in_index
     if layout is None or dims is None:
         return df
+    if layout.get("axis_name") and layout.get("wide") is not None and any(c["role"] == "wide" for c in frame.cols):
+        # the columns axis carries the name of the dimension spread over it, as after to_df(dim_to_columns=...), pivot or unstack
+        wd = list(dims)[layout["wide"]]
+        df.columns.name = wd.name if layout["axis_name"] == "name" else wd.letter
     # label representation: what a typed dimension must convert back
     byname = {d.name: d for d in dims}
     if plain:  # no dimension went into the index
@@ -392,6 +404,26 @@ def apply_fault(frame, f, dims, st):
                 row[j] = None if f.get("item", 0) % 2 == 0 else 123456.5
         frame.rows.insert(f.get("pos", 0) % (nrows + 1), row)
         return True
+    if kind == "dup_wide_col":
+        # a second column for one item of the dimension spread over the columns, its head written the other way a typed dimension
+        # accepts (1900 next to "1900"), holding other numbers: the same label combinations twice
+        wc = [k for k, c in enumerate(frame.cols) if c["role"] == "wide"]
+        if not wc:
+            return False
+        k = wc[f.get("col", 0) % len(wc)]
+        item = frame.cols[k]["item"]
+        witems = {frame.cols[j]["item"] for j in wc}
+        wd = sorted([d for d in dims if witems <= set(d.items)], key=lambda d: len(d.items))
+        if not wd or wd[0].dtype is None or frame.cols[k]["header"] != item:
+            return False
+        head = str(item) if wd[0].dtype is int else (int(item) if str(item).isdigit() else None)
+        if head is None:
+            return False
+        pos = f.get("pos", 0) % (len(frame.cols) + 1)
+        for r in frame.rows:
+            r.insert(pos, None if r[k] is None else r[k] + 1000.0)
+        frame.cols.insert(pos, {"role": "wide", "item": item, "header": head})
+        return True
     if kind == "drop_dim_col":
         dimcols = [k for k, c in enumerate(frame.cols) if c["role"] == "dim"]
         if not dimcols:
@@ -417,7 +449,7 @@ def apply_fault(frame, f, dims, st):
 
 
 RECORD_FAULTS = ["drop_row", "drop_item", "dup_row_same", "dup_row_other", "relabel_unknown", "relabel_known", "blank_value", "blank_label", "append_unknown_row"]
-COLUMN_FAULTS = ["drop_dim_col", "add_junk_col", "rename_wide_col"]
+COLUMN_FAULTS = ["drop_dim_col", "add_junk_col", "rename_wide_col", "dup_wide_col"]
 
 
 # ============================================================================= expectation from the frame
@@ -520,7 +552,7 @@ def expectation(frame, dims, flags, world):
             d = dl[pos[c["dim"]]]
             if set(r[k] for r in frame.rows) != set(d.items):
                 either = either or "items_column_incomplete"
-    if widedim is not None and len(wide_items) != len(widedim.items):
+    if widedim is not None and set(wide_items) != set(widedim.items):
         either = either or "wide_columns_incomplete"
     if not frame.rows:
         either = either or "empty_table"
@@ -589,7 +621,7 @@ class IoChan(Engine):
             world["safety_only"] = True
             world["flags"] = [rng.chance(0.5), rng.chance(0.5)]
             ops = [self.gen_fault(rng, "C12") for _ in range(rng.randint(1, 3))]
-            ops = [f for f in ops if f["f"] in RECORD_FAULTS or f["f"].startswith("permute")]
+            ops = [f for f in ops if f["f"] in RECORD_FAULTS or f["f"] == "dup_wide_col" or f["f"].startswith("permute")]
         elif prop == "C11":
             ops = [self.gen_fault(rng, prop) for _ in range(rng.randint(0, 3))]
         elif task["kind"] == "long":
@@ -783,7 +815,10 @@ class IoChan(Engine):
             medium_faults = [f for f in medium_faults if f["f"] != "truncate"]
         target = FlodymArray(dims=dims, values=np.full(shape, SENTINEL), name="T")
         tsnap = target.values.copy()
-        outcome, result, fired = self._import(st, frame, world, dims, medium, consumer, flags, medium_faults, target, tmp, exp)
+        prior = None
+        if medium in ("csv_reader", "excel_reader") and world["vseed"] % 2 and prop == "C12":
+            prior = to_dataframe(intact, lay["index"], lay, dims)
+        outcome, result, fired = self._import(st, frame, world, dims, medium, consumer, flags, medium_faults, target, tmp, exp, prior)
         if fired.get("truncate"):
             # complete lines are ordinary records.  A cut at a line boundary is simply "the last rows were dropped"
             # and is judged like any other table; after a mid-line cut the torn line is exempt (see _judge_truncated)
@@ -877,7 +912,16 @@ class IoChan(Engine):
             elif not (sparse and v == 0.0):
                 raise Violation("to_df-lists-every-entry", f"to_df does not list entry {idx} (value {v})", cls="to_df-wrong", **tags)
 
-    def _import(self, st, frame, world, dims, medium, consumer, flags, medium_faults, target, tmp, exp):
+    @staticmethod
+    def _write_table(df, path, medium):
+        if medium in ("csv", "csv_reader"):
+            df.to_csv(path, index=isinstance(df.index, pd.MultiIndex) or df.index.name is not None or df.index.dtype == object)
+        else:
+            # "contiguous data starting in A1": no merged index cells
+            dfx = df.reset_index() if (isinstance(df.index, pd.MultiIndex) or df.index.name is not None or df.index.dtype == object) else df
+            dfx.to_excel(path, sheet_name="data", index=False)
+
+    def _import(self, st, frame, world, dims, medium, consumer, flags, medium_faults, target, tmp, exp, prior=None):
         """returns ((outcome, exc class), result array or None, dict of medium faults that fired)"""
         lay = world["layout"]
         fired = {}
@@ -889,7 +933,7 @@ class IoChan(Engine):
         intr = next((f for f in medium_faults if f["f"] == "interrupt"), None)
         if medium in ("csv", "csv_reader"):
             path = os.path.join(tmp, "table.csv")
-            df.to_csv(path, index=isinstance(df.index, pd.MultiIndex) or df.index.name is not None or df.index.dtype == object)
+            self._write_table(df, path, medium)
             if trunc:
                 with open(path, "rb") as fh:
                     blob = fh.read()
@@ -913,9 +957,7 @@ class IoChan(Engine):
                     fired["complete_rows"] = max(0, n_complete)
         elif medium == "excel_reader":
             path = os.path.join(tmp, "table.xlsx")
-            # "contiguous data starting in A1": no merged index cells
-            dfx = df.reset_index() if (isinstance(df.index, pd.MultiIndex) or df.index.name is not None or df.index.dtype == object) else df
-            dfx.to_excel(path, sheet_name="data", index=False)
+            self._write_table(df, path, medium)
         import pandas.io.common as pic
         real_open = open
 
@@ -926,6 +968,23 @@ class IoChan(Engine):
                 raise OSError(code, os.strerror(code), path)
             return real_open(file, *a, **k)
 
+        def earlier_read(rd):
+            """the reader object has read this path before, when the file still held the intact table (a scenario loop that
+            regenerates its input files): what it returns now must come from the file as it is now"""
+            if prior is None:
+                return
+            with open(path, "rb") as fh:
+                now = fh.read()
+            try:
+                self._write_table(prior, path, medium)
+                rd.read_parameter_values(name, dims)
+            except Exception:  # noqa - only what the reader may have kept matters
+                pass
+            finally:
+                with open(path, "wb") as fh:
+                    fh.write(now)
+            self._probe(st, "reader_object_read_the_path_before")
+
         def thunk():
             if medium == "df":
                 d_in = df
@@ -935,11 +994,13 @@ class IoChan(Engine):
                 rd = CSVParameterReader(parameter_files={name: path}, allow_missing_values=flags[0], allow_extra_values=flags[1])
                 # another reader object with the opposite settings exists in the same program; it must not matter
                 CSVParameterReader(parameter_files={"other": path}, allow_missing_values=not flags[0], allow_extra_values=not flags[1])
+                earlier_read(rd)
                 return rd.read_parameter_values(name, dims)
             else:
                 rd = ExcelParameterReader(parameter_files={name: path}, parameter_sheets={name: "data"},
                                           allow_missing_values=flags[0], allow_extra_values=flags[1])
                 ExcelParameterReader(parameter_files={"other": path}, allow_missing_values=not flags[0], allow_extra_values=not flags[1])
+                earlier_read(rd)
                 return rd.read_parameter_values(name, dims)
             if consumer == "from_df":
                 return FlodymArray.from_df(dims=dims, df=d_in, allow_missing_values=flags[0], allow_extra_values=flags[1])
